@@ -6,6 +6,7 @@
 package c14
 
 import (
+	"container/heap"
 	"fmt"
 	"math"
 	"sort"
@@ -30,8 +31,18 @@ const Rule = "cases = histories on graph objects and result objects kept alive f
 	"zero/negative weights; weighted cases carry wexp=k (the library sees weight*2^k, k from -1070 to +900, exact in float64) or " +
 	"mixed magnitudes (weights m*2^d, d up to 40); shapes: random multigraphs with 0-9 vertices, disconnected and dense ones, DAGs, " +
 	"functional graphs, near-tie routes, long paths/cycles/stars/binary trees with 1030-2120 vertices (stack and queue blocks of " +
-	"1024 crossed); non-trivial = some object has an edge between two distinct valid vertices and at least one algorithm query or " +
-	"result read was answered; distinct = distinct (header, op list)"
+	"1024 crossed); threshold sweeps: number of vertices (edges on a core of <=5 vertices), path length = recursion depth, degree of " +
+	"one vertex = BFS frontier, number of parallel edges and self-loops on 3 vertices, number of components with edges, each at " +
+	"0 1 2 63 64 65 255 256 257 1023 1024 1025 (1026 2047-2050 3071-3073: list blocks of 1024) and 65535 65536 65537 70000, all four " +
+	"types, queries before and after a few AddEdge calls, neighbours V-1/V+1 as further objects (quick: every small value, 65537 for " +
+	"every type and the other large values for one type each; thorough: all); vertex arguments of every magnitude (MaxInt, MinInt, " +
+	"2^31, 2^32, 65536, n, -1); the caller overwrites the edge list it passed to the constructor and every slice returned as a " +
+	"copy, appends to the slice Adj(v) returned (`adjappend`), reverses a reversed graph, stops a traversal in its visitor and " +
+	"searches again with the same strategy; ORACLE-ONLY cases (not run on the Lean Model, counted as oracle_only_cases): one class / " +
+	"one vertex's degree / the number of edges on 3 vertices above 4000 (the Model's list appends are quadratic there) - judged by " +
+	"union-find / Tarjan / BFS / Dijkstra / Kruskal references; the Spec certificates of scc and mst are printed up to 4096 " +
+	"vertices (`cert=n/a` above); non-trivial = some object has an edge between two distinct valid vertices and at least one " +
+	"algorithm query or result read was answered; distinct = distinct (header, op list)"
 
 type edge struct {
 	u, v int
@@ -60,10 +71,14 @@ type gobj struct {
 	queried      bool
 	edgesAtQuery int
 
-	// lazily built oracle data
+	// lazily built oracle data (dropped at every AddEdge)
 	succ  [][]int
 	reach [][]bool
+	class []int
+	wadj  [][]arc
 }
+
+func (g *gobj) invalidate() { g.succ, g.reach, g.class, g.wadj = nil, nil, nil, nil }
 
 // world: the objects a case holds (object 0 from `graph`, further ones from `mkrev` and `new`) and the current one
 type world struct {
@@ -167,11 +182,154 @@ func (g *gobj) hasArc(u, v int) bool {
 	return false
 }
 
-// hasCycle: some edge u->v with v reaching u (directed)
+// bruteLimit: up to this many vertices the oracle uses the n x n reachability matrix (one search per vertex); above
+// it the linear references (union-find, Tarjan) stand alone.  Below it both are computed and must agree.
+const bruteLimit = 600
+
+// certLimit: the Spec certificates of the Lean driver for scc and mst cost (number of classes) x n; they are printed
+// for graphs with at most this many vertices (`cert=true`), `cert=n/a` above (driver and harness alike).
+const certLimit = 4096
+
+func certText(n int) string {
+	if n <= certLimit {
+		return "cert=true"
+	}
+	return "cert=n/a"
+}
+
+// tarjan: strongly connected components, label = the smallest vertex of the class (iterative, linear)
+func (g *gobj) tarjan() []int {
+	n := g.n
+	succ := g.succs()
+	index := make([]int, n) // 0 = not yet seen
+	low := make([]int, n)
+	onstk := make([]bool, n)
+	label := make([]int, n)
+	type frame struct{ v, i int }
+	var stk []int
+	idx := 0
+	for s := 0; s < n; s++ {
+		if index[s] != 0 {
+			continue
+		}
+		idx++
+		index[s], low[s] = idx, idx
+		stk = append(stk, s)
+		onstk[s] = true
+		call := []frame{{s, 0}}
+		for len(call) > 0 {
+			f := &call[len(call)-1]
+			if f.i < len(succ[f.v]) {
+				w := succ[f.v][f.i]
+				f.i++
+				if index[w] == 0 {
+					idx++
+					index[w], low[w] = idx, idx
+					stk = append(stk, w)
+					onstk[w] = true
+					call = append(call, frame{w, 0})
+				} else if onstk[w] && index[w] < low[f.v] {
+					low[f.v] = index[w]
+				}
+				continue
+			}
+			v := f.v
+			call = call[:len(call)-1]
+			if len(call) > 0 {
+				if p := call[len(call)-1].v; low[v] < low[p] {
+					low[p] = low[v]
+				}
+			}
+			if low[v] == index[v] {
+				start := len(stk) - 1
+				for stk[start] != v {
+					start--
+				}
+				mn := v
+				for _, w := range stk[start:] {
+					if w < mn {
+						mn = w
+					}
+				}
+				for _, w := range stk[start:] {
+					onstk[w] = false
+					label[w] = mn
+				}
+				stk = stk[:start]
+			}
+		}
+	}
+	return label
+}
+
+// classes: label[v] = the smallest vertex of v's class — connected components for the undirected kinds (union-find),
+// strongly connected components for the directed kinds (mutual reachability from the matrix up to bruteLimit vertices,
+// cross-checked with Tarjan; Tarjan alone above)
+func (g *gobj) classes() []int {
+	if g.class != nil {
+		return g.class
+	}
+	n := g.n
+	label := make([]int, n)
+	if !g.directed() {
+		u := newUF(n)
+		for _, e := range g.edges {
+			u.union(e.u, e.v)
+		}
+		mn := make([]int, n)
+		for v := range mn {
+			mn[v] = n
+		}
+		for v := 0; v < n; v++ {
+			if r := u.find(v); v < mn[r] {
+				mn[r] = v
+			}
+		}
+		for v := 0; v < n; v++ {
+			label[v] = mn[u.find(v)]
+		}
+		if n <= bruteLimit {
+			r := g.reachAll()
+			for a := 0; a < n; a++ {
+				for b := 0; b < n; b++ {
+					if r[a][b] != (label[a] == label[b]) {
+						panic(fmt.Sprintf("harness: union-find and brute-force reachability disagree on %d, %d", a, b))
+					}
+				}
+			}
+		}
+	} else {
+		label = g.tarjan()
+		if n <= bruteLimit {
+			r := g.reachAll()
+			for a := 0; a < n; a++ {
+				mn := a
+				for b := 0; b < a; b++ {
+					if r[a][b] && r[b][a] {
+						mn = b
+						break
+					}
+				}
+				if mn != label[a] {
+					panic(fmt.Sprintf("harness: Tarjan and brute-force mutual reachability disagree on vertex %d", a))
+				}
+			}
+		}
+	}
+	g.class = label
+	return label
+}
+
+// hasCycle (directed kinds): a self-loop, or two vertices in one strongly connected class
 func (g *gobj) hasCycle() bool {
-	r := g.reachAll()
 	for _, e := range g.edges {
-		if r[e.v][e.u] {
+		if e.u == e.v {
+			return true
+		}
+	}
+	label := g.classes()
+	for v, l := range label {
+		if l != v {
 			return true
 		}
 	}
@@ -257,6 +415,27 @@ func (g *gobj) shortest(s int) []int64 {
 		dist[i] = inf
 	}
 	dist[s] = 0
+	if n > 3000 {
+		// large graphs: a textbook lazy Dijkstra on container/heap (weights are >= 0 here)
+		out := make([][]edge, n)
+		for _, e := range g.edges {
+			out[e.u] = append(out[e.u], e)
+		}
+		h := &distHeap{{s, 0}}
+		for h.Len() > 0 {
+			it := heap.Pop(h).(distItem)
+			if it.d > dist[it.v] {
+				continue
+			}
+			for _, e := range out[it.v] {
+				if nd := it.d + e.w; nd < dist[e.v] {
+					dist[e.v] = nd
+					heap.Push(h, distItem{e.v, nd})
+				}
+			}
+		}
+		return dist
+	}
 	for round := 0; round < n; round++ {
 		changed := false
 		for _, e := range g.edges {
@@ -270,6 +449,23 @@ func (g *gobj) shortest(s int) []int64 {
 		}
 	}
 	return dist
+}
+
+type distItem struct {
+	v int
+	d int64
+}
+type distHeap []distItem
+
+func (h distHeap) Len() int           { return len(h) }
+func (h distHeap) Less(i, j int) bool { return h[i].d < h[j].d }
+func (h distHeap) Swap(i, j int)      { h[i], h[j] = h[j], h[i] }
+func (h *distHeap) Push(x any)        { *h = append(*h, x.(distItem)) }
+func (h *distHeap) Pop() any {
+	old := *h
+	x := old[len(old)-1]
+	*h = old[:len(old)-1]
+	return x
 }
 
 // ---------------------------------------------------------------- formatting (same as Driver/C14.lean)
@@ -530,6 +726,13 @@ func newGraph(f []string, wexp int, i int, bad func(int, string, ...any), tags m
 		ng.wd = graph.NewWeightedDirected(n, des...)
 	case "wundirected":
 		ng.wu = graph.NewWeightedUndirected(n, ues...)
+	}
+	// The edge list was the caller's slice (passed with `...`, so the constructor saw the very same backing array):
+	// the caller goes on using it.  A graph that kept it instead of copying the edges out shows the damage.
+	for k := range pairs {
+		pairs[k] = [2]int{n - 1 - k%(n+1), k % (n + 1)}
+		des[k] = graph.VerifDirectedEdge(k%(n+1), n-1-k%(n+1), -3)
+		ues[k] = graph.VerifUndirectedEdge(k%(n+1), n-1-k%(n+1), -3)
 	}
 	return ng
 }
@@ -849,8 +1052,8 @@ func render(r *result, sel *int, i int, bad func(int, string, ...any), tags map[
 		for v := range id {
 			id[v] = getID(v)
 		}
-		// partition exactly by (mutual) reachability
-		reach := g.reachAll()
+		// partition exactly by (mutual) reachability: the ids and the oracle's class labels determine each other
+		label := g.classes()
 		used := map[int]bool{}
 		for v := 0; v < n; v++ {
 			if id[v] < 0 || id[v] >= len(comps) {
@@ -861,14 +1064,20 @@ func render(r *result, sel *int, i int, bad func(int, string, ...any), tags map[
 		if len(used) != len(comps) {
 			bad(i, "%d components reported, %d ids in use", len(comps), len(used))
 		}
-	outer:
-		for a := 0; a < n; a++ {
-			for b := a + 1; b < n; b++ {
-				same := reach[a][b] && reach[b][a]
-				if (id[a] == id[b]) != same {
-					bad(i, "%s: id[%d]=%d id[%d]=%d but mutually reachable=%v", r.what, a, id[a], b, id[b], same)
-					break outer
-				}
+		firstWithID := map[int]int{}
+		idOfClass := map[int]int{}
+		for v := 0; v < n; v++ {
+			if a, ok := firstWithID[id[v]]; ok && label[a] != label[v] {
+				bad(i, "%s: id[%d]=%d id[%d]=%d but mutually reachable=false", r.what, a, id[a], v, id[v])
+				break
+			} else if !ok {
+				firstWithID[id[v]] = v
+			}
+			if x, ok := idOfClass[label[v]]; ok && x != id[v] {
+				bad(i, "%s: id[%d]=%d id[%d]=%d but mutually reachable=true", r.what, label[v], x, v, id[v])
+				break
+			} else if !ok {
+				idOfClass[label[v]] = id[v]
 			}
 		}
 		total := 0
@@ -897,7 +1106,7 @@ func render(r *result, sel *int, i int, bad func(int, string, ...any), tags map[
 		}
 		b.WriteByte(']')
 		if r.what == "scc" {
-			b.WriteString(" cert=true")
+			b.WriteString(" " + certText(n))
 		}
 		// aliasing: overwrite the returned component slices, ask again
 		keepC := make([][]int, len(comps))
@@ -1071,7 +1280,7 @@ func render(r *result, sel *int, i int, bad func(int, string, ...any), tags map[
 			bad(i, "Weight() = %v but the edges sum to %d", wt, sum)
 		}
 		*answered = true
-		b.WriteString("] cert=true")
+		b.WriteString("] " + certText(n))
 		// aliasing: overwrite the returned edge list, ask again
 		keepE := append([]graph.UndirectedEdge(nil), es...)
 		for k := range es {
@@ -1225,7 +1434,7 @@ func execOp(wl *world, f []string, i int, bad func(int, string, ...any), tags ma
 	}
 	g := wl.objs[wl.cur]
 	n := g.n
-	if f[0] != "edge" && f[0] != "use" && f[0] != "mkrev" && f[0] != "ask" && f[0] != "new" {
+	if f[0] != "edge" && f[0] != "use" && f[0] != "mkrev" && f[0] != "ask" && f[0] != "new" && f[0] != "adjappend" {
 		if len(g.edges) > g.edgesAtQuery && g.queried {
 			tags["query-after-edge-after-query"] = true
 		}
@@ -1265,7 +1474,7 @@ func execOp(wl *world, f []string, i int, bad func(int, string, ...any), tags ma
 		}
 		if valid(u) && valid(v) {
 			g.edges = append(g.edges, edge{u, v, int64(w)})
-			g.succ, g.reach = nil, nil
+			g.invalidate()
 			if w < 0 {
 				g.neg = true
 			}
@@ -1280,7 +1489,7 @@ func execOp(wl *world, f []string, i int, bad func(int, string, ...any), tags ma
 		}
 		return "ok"
 
-	case "dump", "reverse", "mkrev", "use", "indeg", "outdeg", "degree", "adjof", "edges", "traverse":
+	case "dump", "reverse", "mkrev", "use", "indeg", "outdeg", "degree", "adjof", "edges", "traverse", "adjappend":
 		return execStateOp(wl, g, f, i, bad, tags)
 
 	case "new":
